@@ -1,6 +1,8 @@
 import DiscretModel.Model.Value
 /-
-Shape invariance of the statement text (`Model/Value.lean`, `compile`) for `Defects.none`:
+Shape invariance of the statement text (`Model/Value.lean`, `compile`) for every `Defects` value without the
+two statement-level deviations (`defaultSpliced`, `varAliasesLiteral`) — `Defects.none` and, since the fixes
+d527622 and cedb2ae, `Defects.asImplemented`:
 erasing every literal and default value of a query changes no token except the contents of
 spliced numerals — in particular the text, the parameter numbering and the binding order are the same.
 -/
@@ -59,147 +61,146 @@ def eraseParams (ps : Params) : Params := ps.map eraseP
 @[simp] theorem eraseParams_append (a b : Params) : eraseParams (a ++ b) = eraseParams a ++ eraseParams b := by
   simp [eraseParams]
 
-theorem findSlot_erase (x : List Char) (ps : Params) (i : Nat) :
-    findSlot Defects.none x (eraseParams ps) i = findSlot Defects.none x ps i := by
+theorem findSlot_erase (d : Defects) (hv : d.varAliasesLiteral = false) (hs : d.defaultSpliced = false) (x : List Char) (ps : Params) (i : Nat) :
+    findSlot d x (eraseParams ps) i = findSlot d x ps i := by
   induction ps generalizing i with
   | nil => rfl
   | cons p ps ih =>
     obtain ⟨b, v⟩ := p
     cases b with
-    | true => simp [eraseParams, eraseP, findSlot, Defects.none] at ih ⊢; exact ih _
-    | false => simp [eraseParams, eraseP, findSlot, Defects.none] at ih ⊢; rw [ih]
+    | true => simp [eraseParams, eraseP, findSlot, hv] at ih ⊢; exact ih _
+    | false => simp [eraseParams, eraseP, findSlot, hv] at ih ⊢; rw [ih]
 
-theorem addParam_var_erase (ps : Params) (x : List Char) :
-    addParam Defects.none (eraseParams ps) false x =
-      (eraseParams (addParam Defects.none ps false x).1, (addParam Defects.none ps false x).2) := by
-  simp only [addParam, findSlot_erase, Bool.false_eq_true, if_false]
-  cases findSlot Defects.none x ps 1 with
+theorem addParam_var_erase (d : Defects) (hv : d.varAliasesLiteral = false) (hs : d.defaultSpliced = false) (ps : Params) (x : List Char) :
+    addParam d (eraseParams ps) false x =
+      (eraseParams (addParam d ps false x).1, (addParam d ps false x).2) := by
+  simp only [addParam, findSlot_erase d hv hs, Bool.false_eq_true, if_false]
+  cases findSlot d x ps 1 with
   | some i => rfl
   | none => simp [eraseParams, eraseP]
 
-theorem addParam_lit_erase (ps : Params) (s : List Char) :
-    addParam Defects.none (eraseParams ps) true [] =
-      (eraseParams (addParam Defects.none ps true s).1, (addParam Defects.none ps true s).2) := by
+theorem addParam_lit_erase (d : Defects) (hv : d.varAliasesLiteral = false) (hs : d.defaultSpliced = false) (ps : Params) (s : List Char) :
+    addParam d (eraseParams ps) true [] =
+      (eraseParams (addParam d ps true s).1, (addParam d ps true s).2) := by
   simp [addParam, eraseParams, eraseP]
 
 /-- the run on the skeleton simulates the run on the query: same binding order up to literal texts, same shapes -/
 def Sim (r' r : Params × List Tok) : Prop := r'.1 = eraseParams r.1 ∧ shapes r'.2 = shapes r.2
 
-theorem defaultTok_sim (ps : Params) (l : Lit) :
-    (defaultTok Defects.none (eraseParams ps) l.erase).1 = eraseParams (defaultTok Defects.none ps l).1 ∧
-    (defaultTok Defects.none (eraseParams ps) l.erase).2.shape = (defaultTok Defects.none ps l).2.shape := by
+theorem defaultTok_sim (d : Defects) (hv : d.varAliasesLiteral = false) (hs : d.defaultSpliced = false) (ps : Params) (l : Lit) :
+    (defaultTok d (eraseParams ps) l.erase).1 = eraseParams (defaultTok d ps l).1 ∧
+    (defaultTok d (eraseParams ps) l.erase).2.shape = (defaultTok d ps l).2.shape := by
   cases l with
-  | str s => simp [Lit.erase, defaultTok, addParam_lit_erase ps s]
+  | str s => simp [Lit.erase, defaultTok, addParam_lit_erase d hv hs ps s]
   | _ => simp [Lit.erase, defaultTok]
 
-theorem selFieldToks_sim (ps : Params) (table : String) (f : SelField) :
-    Sim (selFieldToks Defects.none (eraseParams ps) table f.erase) (selFieldToks Defects.none ps table f) := by
+theorem selFieldToks_sim (d : Defects) (hv : d.varAliasesLiteral = false) (hs : d.defaultSpliced = false) (ps : Params) (table : String) (f : SelField) :
+    Sim (selFieldToks d (eraseParams ps) table f.erase) (selFieldToks d ps table f) := by
   unfold Sim selFieldToks
   simp only [SelField.erase, FieldM.erase]
-  by_cases hs : f.field.isSystem = true
-  · simp [hs]
-  · simp only [hs, Bool.false_eq_true, if_false]
+  by_cases hsys : f.field.isSystem = true
+  · simp [hsys]
+  · simp only [hsys, Bool.false_eq_true, if_false]
     cases hd : f.field.dflt with
     | none => simp
     | some dv =>
-      obtain ⟨a, b⟩ := defaultTok_sim ps dv
+      obtain ⟨a, b⟩ := defaultTok_sim d hv hs ps dv
       simp [a, b]
 
-theorem filterValue_sim (ps : Params) (op : String) (v : FVal) :
-    (filterValue Defects.none (eraseParams ps) op v.erase).1 = eraseParams (filterValue Defects.none ps op v).1 ∧
-    (filterValue Defects.none (eraseParams ps) op v.erase).2.1.shape = (filterValue Defects.none ps op v).2.1.shape ∧
-    (filterValue Defects.none (eraseParams ps) op v.erase).2.2 = (filterValue Defects.none ps op v).2.2 := by
+theorem filterValue_sim (d : Defects) (hv : d.varAliasesLiteral = false) (hs : d.defaultSpliced = false) (ps : Params) (op : String) (v : FVal) :
+    (filterValue d (eraseParams ps) op v.erase).1 = eraseParams (filterValue d ps op v).1 ∧
+    (filterValue d (eraseParams ps) op v.erase).2.1.shape = (filterValue d ps op v).2.1.shape ∧
+    (filterValue d (eraseParams ps) op v.erase).2.2 = (filterValue d ps op v).2.2 := by
   cases v with
-  | var x => simp [FVal.erase, filterValue, addParam_var_erase]
+  | var x => simp [FVal.erase, filterValue, addParam_var_erase d hv hs]
   | lit l =>
     cases l with
-    | str s => simp [FVal.erase, Lit.erase, filterValue, addParam_lit_erase ps s]
+    | str s => simp [FVal.erase, Lit.erase, filterValue, addParam_lit_erase d hv hs ps s]
     | _ => simp [FVal.erase, Lit.erase, filterValue]
 
-theorem filterDefaultTok_sim (ps : Params) (l : Lit) :
-    (filterDefaultTok Defects.none (eraseParams ps) l.erase).1 = eraseParams (filterDefaultTok Defects.none ps l).1 ∧
-    (filterDefaultTok Defects.none (eraseParams ps) l.erase).2.shape = (filterDefaultTok Defects.none ps l).2.shape := by
+theorem filterDefaultTok_sim (d : Defects) (hv : d.varAliasesLiteral = false) (hs : d.defaultSpliced = false) (ps : Params) (l : Lit) :
+    (filterDefaultTok d (eraseParams ps) l.erase).1 = eraseParams (filterDefaultTok d ps l).1 ∧
+    (filterDefaultTok d (eraseParams ps) l.erase).2.shape = (filterDefaultTok d ps l).2.shape := by
   cases l with
   | str s =>
-    simp only [Lit.erase, filterDefaultTok, Defects.none, Bool.false_eq_true, if_false]
-    have := addParam_lit_erase ps s
-    simp only [Defects.none] at this
+    simp only [Lit.erase, filterDefaultTok, hs, Bool.false_eq_true, if_false]
+    have := addParam_lit_erase d hv hs ps s
     rw [this]; simp
   | _ => simp [Lit.erase, filterDefaultTok]
 
-theorem filterToks_sim (ps : Params) (t : Nat) (f : Filter) :
-    Sim (filterToks Defects.none (eraseParams ps) t f.erase) (filterToks Defects.none ps t f) := by
+theorem filterToks_sim (d : Defects) (hv : d.varAliasesLiteral = false) (hs : d.defaultSpliced = false) (ps : Params) (t : Nat) (f : Filter) :
+    Sim (filterToks d (eraseParams ps) t f.erase) (filterToks d ps t f) := by
   unfold Sim filterToks
-  obtain ⟨a, b, c⟩ := filterValue_sim ps f.op f.value
+  obtain ⟨a, b, c⟩ := filterValue_sim d hv hs ps f.op f.value
   simp only [Filter.erase, FieldM.erase, a, c]
-  by_cases hs : f.field.isSystem = true
-  · simp [hs, b]
-  · simp only [hs, Bool.false_eq_true, if_false]
+  by_cases hsys : f.field.isSystem = true
+  · simp [hsys, b]
+  · simp only [hsys, Bool.false_eq_true, if_false]
     cases hd : f.field.dflt with
     | none => simp [b] <;> rfl
     | some dv =>
-      obtain ⟨a2, b2⟩ := filterDefaultTok_sim (filterValue Defects.none ps f.op f.value).1 dv
+      obtain ⟨a2, b2⟩ := filterDefaultTok_sim d hv hs (filterValue d ps f.op f.value).1 dv
       simp [a2, b2, b] <;> rfl
 
-theorem filtersLoop_sim (t : Nat) (ps : Params) (fs : List Filter) :
-    Sim (filtersLoop Defects.none t (eraseParams ps) (fs.map Filter.erase)) (filtersLoop Defects.none t ps fs) := by
+theorem filtersLoop_sim (d : Defects) (hv : d.varAliasesLiteral = false) (hs : d.defaultSpliced = false) (t : Nat) (ps : Params) (fs : List Filter) :
+    Sim (filtersLoop d t (eraseParams ps) (fs.map Filter.erase)) (filtersLoop d t ps fs) := by
   induction fs generalizing ps with
   | nil => simp [Sim, filtersLoop]
   | cons f rest ih =>
     cases rest with
-    | nil => simpa [filtersLoop] using filterToks_sim ps t f
+    | nil => simpa [filtersLoop] using filterToks_sim d hv hs ps t f
     | cons g rest =>
-      obtain ⟨a, b⟩ := filterToks_sim ps t f
-      obtain ⟨a2, b2⟩ := ih (filterToks Defects.none ps t f).1
+      obtain ⟨a, b⟩ := filterToks_sim d hv hs ps t f
+      obtain ⟨a2, b2⟩ := ih (filterToks d ps t f).1
       simp only [List.map_cons] at a2 b2
       simp only [Sim, filtersLoop, List.map_cons, a, shapes_append, shapes_cons, shapes_nil, shape_txt,
         shape_tab, b, a2, b2, and_self]
 
-theorem whereFilters_sim (ps : Params) (t : Nat) (fs : List Filter) :
-    Sim (whereFilters Defects.none (eraseParams ps) t (fs.map Filter.erase)) (whereFilters Defects.none ps t fs) := by
+theorem whereFilters_sim (d : Defects) (hv : d.varAliasesLiteral = false) (hs : d.defaultSpliced = false) (ps : Params) (t : Nat) (fs : List Filter) :
+    Sim (whereFilters d (eraseParams ps) t (fs.map Filter.erase)) (whereFilters d ps t fs) := by
   unfold Sim whereFilters
-  obtain ⟨a, b⟩ := filtersLoop_sim t ps fs
+  obtain ⟨a, b⟩ := filtersLoop_sim d hv hs t ps fs
   cases fs with
   | nil => simp
   | cons f rest =>
     simp only [List.map_cons] at a b
     simp [a, b]
 
-theorem selFieldsLoop_sim (table : String) (t : Nat) (ps : Params) (fs : List SelField) :
-    Sim (selFieldsLoop Defects.none table t (eraseParams ps) (fs.map SelField.erase))
-      (selFieldsLoop Defects.none table t ps fs) := by
+theorem selFieldsLoop_sim (d : Defects) (hv : d.varAliasesLiteral = false) (hs : d.defaultSpliced = false) (table : String) (t : Nat) (ps : Params) (fs : List SelField) :
+    Sim (selFieldsLoop d table t (eraseParams ps) (fs.map SelField.erase))
+      (selFieldsLoop d table t ps fs) := by
   induction fs generalizing ps with
   | nil => simp [Sim, selFieldsLoop]
   | cons f rest ih =>
-    obtain ⟨a, b⟩ := selFieldToks_sim ps table f
+    obtain ⟨a, b⟩ := selFieldToks_sim d hv hs ps table f
     cases rest with
     | nil => simp [Sim, selFieldsLoop, a, b]
     | cons g rest =>
-      obtain ⟨a2, b2⟩ := ih (selFieldToks Defects.none ps table f).1
+      obtain ⟨a2, b2⟩ := ih (selFieldToks d ps table f).1
       simp only [List.map_cons] at a2 b2
       simp only [Sim, selFieldsLoop, List.map_cons, a, shapes_append, shapes_cons, shapes_nil, shape_txt,
         shape_tab, b, a2, b2, and_self]
 
-theorem subEntityQuery_sim (ps : Params) (q : SubQ) (parent : String) (t : Nat) (u : Bool) :
-    Sim (subEntityQuery Defects.none (eraseParams ps) q.erase parent t u)
-      (subEntityQuery Defects.none ps q parent t u) := by
+theorem subEntityQuery_sim (d : Defects) (hv : d.varAliasesLiteral = false) (hs : d.defaultSpliced = false) (ps : Params) (q : SubQ) (parent : String) (t : Nat) (u : Bool) :
+    Sim (subEntityQuery d (eraseParams ps) q.erase parent t u)
+      (subEntityQuery d ps q parent t u) := by
   unfold Sim subEntityQuery subFields
   simp only [SubQ.erase]
-  obtain ⟨a, b⟩ := selFieldsLoop_sim q.key t ps q.fields
-  obtain ⟨a2, b2⟩ := whereFilters_sim (selFieldsLoop Defects.none q.key t ps q.fields).1 t q.filters
+  obtain ⟨a, b⟩ := selFieldsLoop_sim d hv hs q.key t ps q.fields
+  obtain ⟨a2, b2⟩ := whereFilters_sim d hv hs (selFieldsLoop d q.key t ps q.fields).1 t q.filters
   simp [a, b, a2, b2]
 
-theorem subGroupArray_sim (ps : Params) (q : SubQ) (parent : String) (t : Nat) :
-    Sim (subGroupArray Defects.none (eraseParams ps) q.erase parent t)
-      (subGroupArray Defects.none ps q parent t) := by
+theorem subGroupArray_sim (d : Defects) (hv : d.varAliasesLiteral = false) (hs : d.defaultSpliced = false) (ps : Params) (q : SubQ) (parent : String) (t : Nat) :
+    Sim (subGroupArray d (eraseParams ps) q.erase parent t)
+      (subGroupArray d ps q parent t) := by
   unfold Sim subGroupArray
-  obtain ⟨a, b⟩ := subEntityQuery_sim ps q parent (t + 1) false
+  obtain ⟨a, b⟩ := subEntityQuery_sim d hv hs ps q parent (t + 1) false
   simp [a, b]
 
-theorem qFieldToks_sim (ps : Params) (table : String) (t : Nat) (fld : QField) :
-    Sim (qFieldToks Defects.none (eraseParams ps) table t fld.erase) (qFieldToks Defects.none ps table t fld) := by
+theorem qFieldToks_sim (d : Defects) (hv : d.varAliasesLiteral = false) (hs : d.defaultSpliced = false) (ps : Params) (table : String) (t : Nat) (fld : QField) :
+    Sim (qFieldToks d (eraseParams ps) table t fld.erase) (qFieldToks d ps table t fld) := by
   cases fld with
-  | scalar f => simpa [QField.erase, qFieldToks] using selFieldToks_sim ps table f
+  | scalar f => simpa [QField.erase, qFieldToks] using selFieldToks_sim d hv hs ps table f
   | sub q =>
     unfold Sim
     simp only [QField.erase, qFieldToks]
@@ -207,29 +208,29 @@ theorem qFieldToks_sim (ps : Params) (table : String) (t : Nat) (fld : QField) :
     have hk2 : q.erase.key = q.key := rfl
     rw [hk, hk2]
     by_cases ha : q.isArray = true
-    · obtain ⟨a, b⟩ := subGroupArray_sim ps q table (t + 1)
+    · obtain ⟨a, b⟩ := subGroupArray_sim d hv hs ps q table (t + 1)
       simp [ha, a, b]
-    · obtain ⟨a, b⟩ := subEntityQuery_sim ps q table (t + 1) true
+    · obtain ⟨a, b⟩ := subEntityQuery_sim d hv hs ps q table (t + 1) true
       simp [ha, a, b]
 
-theorem qFieldsLoop_sim (table : String) (t : Nat) (ps : Params) (fs : List QField) :
-    Sim (qFieldsLoop Defects.none table t (eraseParams ps) (fs.map QField.erase))
-      (qFieldsLoop Defects.none table t ps fs) := by
+theorem qFieldsLoop_sim (d : Defects) (hv : d.varAliasesLiteral = false) (hs : d.defaultSpliced = false) (table : String) (t : Nat) (ps : Params) (fs : List QField) :
+    Sim (qFieldsLoop d table t (eraseParams ps) (fs.map QField.erase))
+      (qFieldsLoop d table t ps fs) := by
   induction fs generalizing ps with
   | nil => simp [Sim, qFieldsLoop]
   | cons f rest ih =>
-    obtain ⟨a, b⟩ := qFieldToks_sim ps table t f
+    obtain ⟨a, b⟩ := qFieldToks_sim d hv hs ps table t f
     cases rest with
     | nil => simp [Sim, qFieldsLoop, a, b]
     | cons g rest =>
-      obtain ⟨a2, b2⟩ := ih (qFieldToks Defects.none ps table t f).1
+      obtain ⟨a2, b2⟩ := ih (qFieldToks d ps table t f).1
       simp only [List.map_cons] at a2 b2
       simp only [Sim, qFieldsLoop, List.map_cons, a, shapes_append, shapes_cons, shapes_nil, shape_txt,
         shape_tab, b, a2, b2, and_self]
 
-theorem existsLoop_sim (table : String) (t : Nat) (ps : Params) (fs : List QField) :
-    Sim (existsLoop Defects.none table t (eraseParams ps) (fs.map QField.erase))
-      (existsLoop Defects.none table t ps fs) := by
+theorem existsLoop_sim (d : Defects) (hv : d.varAliasesLiteral = false) (hs : d.defaultSpliced = false) (table : String) (t : Nat) (ps : Params) (fs : List QField) :
+    Sim (existsLoop d table t (eraseParams ps) (fs.map QField.erase))
+      (existsLoop d table t ps fs) := by
   induction fs generalizing ps with
   | nil => simp [Sim, existsLoop]
   | cons f rest ih =>
@@ -240,28 +241,28 @@ theorem existsLoop_sim (table : String) (t : Nat) (ps : Params) (fs : List QFiel
       have hk3 : q.erase.isArray = q.isArray := rfl
       by_cases hn : q.nullable = true
       · simpa [QField.erase, existsLoop, hk, hn] using ih ps
-      · obtain ⟨a, b⟩ := subEntityQuery_sim ps q table (t + 1) (!q.isArray)
-        obtain ⟨a2, b2⟩ := ih (subEntityQuery Defects.none ps q table (t + 1) (!q.isArray)).1
+      · obtain ⟨a, b⟩ := subEntityQuery_sim d hv hs ps q table (t + 1) (!q.isArray)
+        obtain ⟨a2, b2⟩ := ih (subEntityQuery d ps q table (t + 1) (!q.isArray)).1
         simp only [Sim, List.map_cons, QField.erase, existsLoop, hk, hk3, hn, Bool.false_eq_true, if_false, a,
           shapes_append, shapes_cons, shapes_nil, shape_txt, shape_tab, b, a2, b2, and_self]
 
-theorem entityQuery_sim (ps : Params) (q : TopQ) (t : Nat) :
-    Sim (entityQuery Defects.none (eraseParams ps) q.erase t) (entityQuery Defects.none ps q t) := by
+theorem entityQuery_sim (d : Defects) (hv : d.varAliasesLiteral = false) (hs : d.defaultSpliced = false) (ps : Params) (q : TopQ) (t : Nat) :
+    Sim (entityQuery d (eraseParams ps) q.erase t) (entityQuery d ps q t) := by
   unfold Sim entityQuery
   simp only [TopQ.erase]
-  obtain ⟨a, b⟩ := qFieldsLoop_sim q.table t ps q.fields
-  obtain ⟨a2, b2⟩ := existsLoop_sim q.table t (qFieldsLoop Defects.none q.table t ps q.fields).1 q.fields
-  obtain ⟨a3, b3⟩ := whereFilters_sim
-    (existsLoop Defects.none q.table t (qFieldsLoop Defects.none q.table t ps q.fields).1 q.fields).1 t q.filters
+  obtain ⟨a, b⟩ := qFieldsLoop_sim d hv hs q.table t ps q.fields
+  obtain ⟨a2, b2⟩ := existsLoop_sim d hv hs q.table t (qFieldsLoop d q.table t ps q.fields).1 q.fields
+  obtain ⟨a3, b3⟩ := whereFilters_sim d hv hs
+    (existsLoop d q.table t (qFieldsLoop d q.table t ps q.fields).1 q.fields).1 t q.filters
   simp [a, b, a2, b2, a3, b3]
 
 /-- **Shape invariance.** Without the deviations, the statement compiled from a query and the statement
     compiled from its skeleton have the same tokens up to the content of spliced numerals, and the same
     binding order up to the texts of literals. -/
-theorem compile_erase (q : TopQ) :
-    (compile Defects.none q.erase).1 = eraseParams (compile Defects.none q).1 ∧
-    shapes (compile Defects.none q.erase).2 = shapes (compile Defects.none q).2 := by
-  obtain ⟨a, b⟩ := entityQuery_sim [] q 1
+theorem compile_erase (d : Defects) (hv : d.varAliasesLiteral = false) (hs : d.defaultSpliced = false) (q : TopQ) :
+    (compile d q.erase).1 = eraseParams (compile d q).1 ∧
+    shapes (compile d q.erase).2 = shapes (compile d q).2 := by
+  obtain ⟨a, b⟩ := entityQuery_sim d hv hs [] q 1
   have he : eraseParams [] = [] := rfl
   rw [he] at a b
   simp [compile, a, b]
